@@ -32,23 +32,13 @@ Theorem C18_leader_only_publishes : forall r proxy l,
 Proof. exact leader_only_publishes. Qed.
 Print Assumptions C18_leader_only_publishes.
 
-(* a follower read that touches local data has fetched and adopted the leader's revision first;
-   when the fetch does not succeed the read fails.  Full statement, over every endpoint behaviour: *)
-Definition C18_read_after_sync_full_statement : Prop := forall l, read_after_sync_statement l.
-
-(* refuted by the faithful model: a 200 answer whose body does not parse (finding C18-F2) *)
-Theorem C18_read_after_sync_full_refuted : exists l, ~ read_after_sync_statement l.
-Proof. exact read_after_sync_refuted. Qed.
-Print Assumptions C18_read_after_sync_full_refuted.
-
-Theorem C18_read_after_sync_except_garbage : forall l, l <> Garbage200 -> read_after_sync_statement l.
-Proof. exact read_after_sync_except_garbage. Qed.
-Print Assumptions C18_read_after_sync_except_garbage.
-
-Theorem C18_garbage_reads_at_zero : forall k proxy, is_read k = true ->
-  outcome_of (roles_effects k Follower proxy Garbage200) = ServeLocalAt 0.
-Proof. exact garbage_reads_at_zero. Qed.
-Print Assumptions C18_garbage_reads_at_zero.
+(* a follower read that touches local data has fetched and adopted the leader's revision first; when the
+   fetch does not succeed — connection refused, a non-200 status, or a 200 whose body is not the JSON
+   document — the read fails and the read revision is untouched.  Full strength, every endpoint behaviour
+   (the unparsable-body case was finding C18-F2 before the fix: commit). *)
+Theorem C18_read_after_sync : forall l, read_after_sync_statement l.
+Proof. exact read_after_sync. Qed.
+Print Assumptions C18_read_after_sync.
 
 (* freshness over all interleavings of two follower reads with an advancing leader.  Full statement: *)
 Definition C18_read_fresh_full_statement : Prop :=
@@ -79,11 +69,9 @@ Theorem C18_private_fetch_alone_refuted : exists ls, fresh (run false false (i_i
 Proof. exact private_fetch_alone_refuted. Qed.
 Print Assumptions C18_private_fetch_alone_refuted.
 
-(* the executable oracle accepts what the model produces, except exactly on the findings' signatures *)
+(* the executable oracle accepts what the model produces (role rows: always; schedules: except exactly on the two findings' signatures) *)
 Theorem C18_oracle_sound_roles : forall k r proxy l obs,
-  c18_check (RoleCase k r proxy l obs) = true ->
-  c18_oracle (RoleCase k r proxy l obs) = None
-  \/ (c18_oracle (RoleCase k r proxy l obs) = Some F_garbage_status /\ l = Garbage200 /\ r = Follower /\ is_read k = true).
+  c18_check (RoleCase k r proxy l obs) = true -> c18_oracle (RoleCase k r proxy l obs) = None.
 Proof. exact c18_role_sound. Qed.
 Print Assumptions C18_oracle_sound_roles.
 
@@ -98,20 +86,15 @@ Proof. exact c18_sched_sound. Qed.
 Print Assumptions C18_oracle_sound_schedules.
 
 (* two overlapping reads where the second one's fetch fails: the failing read errs without touching the
-   read revision, the first read is served at the revision it adopted; a garbage answer instead drags the
-   first read to revision 0 (finding C18-F2 again) *)
-Theorem C18_failed_fetch_leaves_others_alone : forall r l, fetch_succeeds l = false -> l <> Garbage200 ->
+   read revision, the first read is served at the revision it adopted *)
+Theorem C18_failed_fetch_leaves_others_alone : forall r l, fetch_succeeds l = false ->
   overlap_model r l = (RespError, [r], r).
 Proof. exact overlap_failed_fetch. Qed.
 Print Assumptions C18_failed_fetch_leaves_others_alone.
-Theorem C18_garbage_disturbs_others : forall r, overlap_model r Garbage200 = (RespOk, [r; 0], 0).
-Proof. exact overlap_garbage. Qed.
-Print Assumptions C18_garbage_disturbs_others.
 Theorem C18_oracle_sound_overlap : forall r l b_resp sets a_scan a_nonempty,
   (0 < r)%N -> (forall v, l = ReachOk v -> (r <= v)%N) ->
   c18_check (OverlapCase r l b_resp sets a_scan a_nonempty) = true ->
-  c18_oracle (OverlapCase r l b_resp sets a_scan a_nonempty) = None
-  \/ (c18_oracle (OverlapCase r l b_resp sets a_scan a_nonempty) = Some F_garbage_status /\ l = Garbage200).
+  c18_oracle (OverlapCase r l b_resp sets a_scan a_nonempty) = None.
 Proof. exact c18_overlap_sound. Qed.
 Print Assumptions C18_oracle_sound_overlap.
 
@@ -129,6 +112,8 @@ Example C18_except_inhabited :
   let s := run_code (i_init 10 5) [LStep TA; LStep TB; LStep TA; LAdv; LStep TA; LStep TA; LStep TB; LStep TB; LStep TB; LStep TA; LStep TA; LStep TB; LStep TB] in
   lowering_set s = false /\ some_joined s = false /\ obs_of_thr (i_a s) = TObs true 10 11 false /\ obs_of_thr (i_b s) = TObs true 10 11 false.
 Proof. vm_compute. repeat split. Qed.
+Example C18_garbage_now_fails : outcome_of (roles_effects ERangeList Follower false Garbage200) = Error.
+Proof. reflexivity. Qed.
 Example C18_follower_read_ok : outcome_of (roles_effects ERangeList Follower false (ReachOk 50)) = ServeLocalAt 50.
 Proof. reflexivity. Qed.
 Example C18_leader_writes : outcome_of (roles_effects ETxnCreate Leader false Unreachable) = ApplyLocal.
